@@ -87,23 +87,45 @@ theorem getHoursAdjExt_ok (p : Params α) (t : TopAstroDay α) (w : Weather α) 
     ∃ r, getHoursAdjExt p t w = .ok r :=
   adjForExtLat_ok p _ _ (getHours_dhuhr p t w)
 
-/-- a result always has exactly the seven entries (it is a record of seven), and the whole
-    computation can only fail inside `hourToTime` (NaiveTime construction / the wrap loop):
-    if every conversion of a present hour succeeds, `prayerTimesDt` succeeds. -/
+/-- the hour entries that are present in a set of adjusted hours -/
+def presentHours (h : PHours α) : List (PH α) := [h.fajr, h.shur, h.dhuhr, h.asr, h.magh, h.isha].filterMap id
+
+/-- A result always has exactly the seven entries (it is a record of seven), and the whole
+    computation can only fail inside `hourToTime` (NaiveTime construction / the wrap loop): if the
+    clock conversion succeeds for every hour that is actually present in the three runs the
+    function makes (the caller's parameters, and the two Imsaak parameter sets), `prayerTimesDt`
+    succeeds.  (An earlier version asked for the conversion of EVERY scalar to succeed; that
+    hypothesis is false over the reals - a value of -10^7 hours exhausts the wrap loop - so the
+    theorem was vacuous.  `C11.hourToTime_ok` discharges the present hypothesis for hours bounded
+    below, which is what `dhuhr_bounds`/`twilight_bounds` provide for the conventional hours.) -/
 theorem prayerTimesDt_ok_of_times (p : Params α) (loc : Location α) (rd : Int) (w : Option (Weather α))
-    (hconv : ∀ (q : Params α) (pr : Prayer) (x : α), ∃ t, hourToTime q pr x = .ok t) :
+    (hconv : ∀ (q : Params α) (h : PHours α), (q = p ∨ q = imsaakParams1 p ∨ q = imsaakParams2 p) →
+      getHoursAdjExt q (topFromJd (JD.new rd loc.gmt) loc.coords) (w.getD defaultWeather) = .ok h →
+      ∀ (pr : Prayer) (ph : PH α), ph ∈ presentHours h → ∃ t, hourToTime q pr ph.value = .ok t) :
     ∃ d, prayerTimesDt p loc rd w = .ok d := by
   unfold prayerTimesDt
   simp only
   obtain ⟨h, hh⟩ := getHoursAdjExt_ok p (topFromJd (JD.new rd loc.gmt) loc.coords) (w.getD defaultWeather)
   rw [hh]
-  have hopt : ∀ (q : Params α) (pr : Prayer) (o : Option (PH α)), ∃ r, optTime q pr o = .ok r := by
-    intro q pr o
+  -- a slot converts when its value, if present, does
+  have hopt : ∀ (q : Params α) (pr : Prayer) (o : Option (PH α)),
+      (∀ ph, o = some ph → ∃ t, hourToTime q pr ph.value = .ok t) → ∃ r, optTime q pr o = .ok r := by
+    intro q pr o ho
     cases o with
     | none => exact ⟨_, rfl⟩
     | some ph =>
-      obtain ⟨t, ht⟩ := hconv q pr ph.value
+      obtain ⟨t, ht⟩ := ho ph rfl
       simp [optTime, toPrayerTime, ht]
+  have slot : ∀ (q : Params α) (g : PHours α), (q = p ∨ q = imsaakParams1 p ∨ q = imsaakParams2 p) →
+      getHoursAdjExt q (topFromJd (JD.new rd loc.gmt) loc.coords) (w.getD defaultWeather) = .ok g →
+      ∀ (pr : Prayer) (o : Option (PH α)), o ∈ [g.fajr, g.shur, g.dhuhr, g.asr, g.magh, g.isha] →
+      ∃ r, optTime q pr o = .ok r := by
+    intro q g hq hg pr o ho
+    apply hopt
+    intro ph hph
+    apply hconv q g hq hg pr ph
+    simp only [presentHours, List.mem_filterMap, id]
+    exact ⟨o, ho, hph⟩
   have him : ∃ r, getImsaak p (topFromJd (JD.new rd loc.gmt) loc.coords) (w.getD defaultWeather) = .ok r := by
     unfold getImsaak imsaakOf
     obtain ⟨h1, hh1⟩ := getHoursAdjExt_ok (imsaakParams1 p) (topFromJd (JD.new rd loc.gmt) loc.coords) (w.getD defaultWeather)
@@ -113,15 +135,17 @@ theorem prayerTimesDt_ok_of_times (p : Params α) (loc : Location α) (rd : Int)
     have hflag : ∀ r : Except Panic (Option PT), (∃ x, r = .ok x) → ∃ x, flagExtreme r = .ok x := by
       rintro r ⟨x, rfl⟩
       cases x <;> exact ⟨_, rfl⟩
+    have c1 := slot (imsaakParams1 p) h1 (Or.inr (Or.inl rfl)) hh1 .Fajr h1.fajr (by simp)
+    have c2 := slot (imsaakParams2 p) h2 (Or.inr (Or.inr rfl)) hh2 .Fajr h2.fajr (by simp)
     cases fajrExtreme h1 <;> cases fajrExtreme h0 <;> simp <;>
-      first | exact hopt _ _ _ | exact hflag _ (hopt _ _ _)
+      first | exact c1 | exact hflag _ c2
   obtain ⟨im, him⟩ := him
-  obtain ⟨f, hf⟩ := hopt p .Fajr h.fajr
-  obtain ⟨s, hs⟩ := hopt p .Shurooq h.shur
-  obtain ⟨d, hdd⟩ := hopt p .Dhuhr h.dhuhr
-  obtain ⟨a, ha⟩ := hopt p .Asr h.asr
-  obtain ⟨m, hm⟩ := hopt p .Maghrib h.magh
-  obtain ⟨i, hi⟩ := hopt p .Isha h.isha
+  obtain ⟨f, hf⟩ := slot p h (Or.inl rfl) hh .Fajr h.fajr (by simp)
+  obtain ⟨s, hs⟩ := slot p h (Or.inl rfl) hh .Shurooq h.shur (by simp)
+  obtain ⟨d, hdd⟩ := slot p h (Or.inl rfl) hh .Dhuhr h.dhuhr (by simp)
+  obtain ⟨a, ha⟩ := slot p h (Or.inl rfl) hh .Asr h.asr (by simp)
+  obtain ⟨m, hm⟩ := slot p h (Or.inl rfl) hh .Maghrib h.magh (by simp)
+  obtain ⟨i, hi⟩ := slot p h (Or.inl rfl) hh .Isha h.isha (by simp)
   simp [assemble, hf, hs, hdd, ha, hm, hi, him]
 
 /-- **the seven reported entries are exactly the clock conversions of the six adjusted hours and of
@@ -168,7 +192,7 @@ theorem dhuhr_bounds (t : TopAstroDay ℝ) (w : Weather ℝ) :
   have hH := C01_hourAngle_range t.cur.sid t.cur.ra t.coords.lon (raInterpDeltas t.prev.ra t.cur.ra t.next.ra) m
   constructor <;> nlinarith [hH.1, hH.2]
 
-/-- …and Fajr, Isha and Asr within 180·c ≈ 12 h of it -/
+/-- …and Fajr and Isha within 180·c ≈ 12 h of it (Asr: `asr_bounds` below) -/
 theorem twilight_bounds (angF angI lat dec dhuhr x : ℝ)
     (h : (fajrIsha angF angI lat dec dhuhr).1 = some x ∨ (fajrIsha angF angI lat dec dhuhr).2 = some x) :
     dhuhr - 13 ≤ x ∧ x ≤ dhuhr + 13 := by
@@ -186,21 +210,43 @@ theorem twilight_bounds (angF angI lat dec dhuhr x : ℝ)
   rcases h with h | h <;> (split at h <;> [skip; simp at h]) <;> simp only [Option.some.injEq] at h <;>
     rw [← h] <;> constructor <;> nlinarith [hdeg (twilightCos lat dec angF), hdeg (twilightCos lat dec angI), hc.1, hc.2]
 
-/-- **so over ℝ the conversions of Dhuhr, Fajr and Isha to a clock time always succeed** (h < 24,
-    m < 60, s < 60, wrap loop within fuel) for minute offsets within ±1500; Asr likewise.  Shurooq
-    and Maghrib carry a Newton correction that no theorem here bounds (their conversion succeeds
-    whenever the hour is ≥ −2.4·10⁶, Thm C11 `hourToTime_ok`). -/
+/-- Asr within 180·c ≈ 12 h after Dhuhr -/
+theorem asr_bounds (ratio : AsrRatio) (lat dec dhuhr x : ℝ) (h : getAsr ratio lat dec dhuhr = some x) :
+    dhuhr - 13 ≤ x ∧ x ≤ dhuhr + 13 := by
+  have hc : (0 : ℝ) < Gen.DEGREES_TO_10_BASE ∧ (Gen.DEGREES_TO_10_BASE : ℝ) < 7 / 100 := by
+    rw [c_DEGREES_TO_10_BASE]; constructor <;> norm_num
+  have hdeg : ∀ r : ℝ, 0 ≤ toDegrees (Real.arccos r) ∧ toDegrees (Real.arccos r) ≤ 180 := by
+    intro r
+    refine ⟨toDegrees_nonneg (Real.arccos_nonneg r), ?_⟩
+    rw [toDegrees_real]
+    have := Real.arccos_le_pi r
+    have hp := Real.pi_pos
+    rw [mul_div_assoc', div_le_iff₀ hp]; nlinarith
+  unfold getAsr at h
+  simp only [sc_acos] at h
+  split at h <;> [skip; simp at h]
+  simp only [Option.some.injEq] at h
+  rw [← h]; constructor <;> nlinarith [hdeg (asrCos ratio lat dec), hc.1, hc.2]
+
+/-- **so over ℝ the conversions of the conventional Dhuhr, Fajr, Isha and Asr to a clock time always
+    succeed** (h < 24, m < 60, s < 60, wrap loop within fuel) for minute offsets within ±1500.
+    Scope: the hours of `getHours` (policy None, no intervals).  Shurooq and Maghrib carry a Newton
+    correction that no theorem here bounds, and the hours written by the replacing policies are
+    not bounded here either (their conversion succeeds whenever the hour is ≥ −2.4·10⁶, Thm C11
+    `hourToTime_ok`). -/
 theorem angle_hours_convert (p : Params ℝ) (t : TopAstroDay ℝ) (w : Weather ℝ) (pr : Prayer) (x : ℝ)
     (hoff : |p.minutes pr| ≤ 1500)
-    (hx : (getHours p t w).dhuhr = some x ∨ (getHours p t w).fajr = some x ∨ (getHours p t w).isha = some x) :
+    (hx : (getHours p t w).dhuhr = some x ∨ (getHours p t w).fajr = some x ∨ (getHours p t w).isha = some x ∨
+      (getHours p t w).asr = some x) :
     ∃ tm, hourToTime p pr x = .ok tm := by
   have hd := dhuhr_bounds t w
   have hb : -25 ≤ x ∧ x ≤ 49 := by
     simp only [getHours] at hx
-    rcases hx with h | h | h
+    rcases hx with h | h | h | h
     · simp only [Option.some.injEq] at h; rw [← h]; constructor <;> linarith [hd.1, hd.2]
     · have := twilight_bounds _ _ _ _ _ x (Or.inl h); constructor <;> linarith [hd.1, hd.2, this.1, this.2]
     · have := twilight_bounds _ _ _ _ _ x (Or.inr h); constructor <;> linarith [hd.1, hd.2, this.1, this.2]
+    · have := asr_bounds _ _ _ _ x h; constructor <;> linarith [hd.1, hd.2, this.1, this.2]
   rw [abs_le] at hoff
   apply C11.hourToTime_ok <;> linarith [hb.1, hb.2, hoff.1, hoff.2]
 
